@@ -1,9 +1,10 @@
 import SFV.Model.ProvGraph
+import SFV.Gen.AvailGuards
 import SFV.Model.Proto
 open SFV SFV.Proto SFV.Prov
 
 /-! one line = one graph:  `bg <fuel> | <inputs: ids> | <stop ids> | <deps: t:p1,p2 ...>`
-    answer: `ok nodes=<sorted ids> edges=<sorted p>t pairs>` | `noprev <t>` | `fuel` -/
+    answer: `ok nodes=<sorted ids> edges=<sorted p>t pairs>` | `noprev <t>` | `fuel`;  `avail …` see below -/
 
 def parseIds (s : String) : List Nat := (s.splitOn ",").filterMap (·.toNat?)
 def idsS (l : List Nat) : String := if l.isEmpty then "-" else ",".intercalate (l.map toString)
@@ -11,7 +12,29 @@ def idsS (l : List Nat) : String := if l.isEmpty then "-" else ",".intercalate (
 def sortNat (l : List Nat) : List Nat := l.mergeSort (· ≤ ·)
 def sortPairs (l : List (Nat × Nat)) : List (Nat × Nat) := l.mergeSort (fun a b => a.1 < b.1 || (a.1 == b.1 && a.2 ≤ b.2))
 
+/-! `avail <leaf|list|record> <leaf>…` with leaf = `p<0|1>` (plain token, recoverable flag) or `f<0|1>:<copies>` (file token with ONE
+    path; `<copies>` = one 0/1 digit per primary data location, `-` for none) -> `avail=<true|false>` by the availability model run with
+    the GENERATED quantifiers -/
+def parseLeaf (w : String) : Option SFV.Avail.Tok :=
+  let bit (c : Char) := c == '1'
+  match w.toList with
+  | ['p', r] => some (.plain (bit r))
+  | 'f' :: r :: ':' :: cs => some (.file (bit r) [if cs == ['-'] then [] else cs.map bit])
+  | _ => none
+
 def handle : List String → String
+  | "avail" :: kind :: leaves =>
+      match leaves.mapM parseLeaf with
+      | none => "bad-op"
+      | some ls =>
+          let t : Option SFV.Avail.Tok := match kind, ls with
+            | "leaf", [l] => some l
+            | "list", ls => some (.list ls)
+            | "record", ls => some (.record ls)
+            | _, _ => none
+          match t with
+          | some t => s!"avail={SFV.Avail.avail SFV.Gen.availCfg t}"
+          | none => "bad-op"
   | "bg" :: fuel :: "|" :: rest =>
       match fuel.toNat? with
       | none => "bad-op"
